@@ -58,9 +58,9 @@ Definition of_be (l : bytes) : N := fold_left (fun acc b => acc * 256 + b2n b)%N
 
 (* minimalBytesToInt64: v += int64(data[i]) << (8*pow) wraps in int64; with len(data) <= 8 the sum is
    of_be data mod 2^64 read as a signed value; rejected when v < 0 || v > maxInt32 *)
-Definition minimal_bytes_to_int64 (data : bytes) : res nat :=
+Definition minimal_bytes_to_int64 (data : bytes) : res N :=
   let v := (of_be data mod 2 ^ 64)%N in
-  if (v <? 2 ^ 63)%N && (v <=? maxInt32)%N then Ok (N.to_nat v) else Err ETooMany.
+  if (v <? 2 ^ 63)%N && (v <=? maxInt32)%N then Ok v else Err ETooMany.
 
 (* extractLongLen(isList, prefix, pos, data): here [rest] = data[pos:], starting AT the prefix byte.
    Returns (dataLen, data[newPos:]). *)
@@ -71,7 +71,8 @@ Definition extract_long_len (long_prefix : N) (prefix : N) (rest : bytes) : res 
   do lb <- slice rest1 0 len_of_len;
   do dl <- minimal_bytes_to_int64 lb;
   let rest2 := skipn len_of_len rest1 in
-  if (length rest2 <? dl)%nat then Err ELenData else Ok (dl, rest2).
+  (* compared in N: the declared length is converted to a nat only once it is known to fit the data *)
+  if (N.of_nat (length rest2) <? dl)%N then Err ELenData else Ok (N.to_nat dl, rest2).
 
 (* decode(data, limit): the element loop.  [rest] is data[pos:]; limit None = -1. *)
 Fixpoint decode_items (fuel : nat) (rest : bytes) (limit : option nat) (acc : list item) (pos : nat)
